@@ -101,6 +101,22 @@ class LockDomain(Domain):
         return (max(a[0], b[0]), a[1] | b[1])
 
     # ---------------------------------------------------------------- acquisition
+    def known_owner(self, fr):
+        """this frame's function, or its nearest caller the rule tables know (a guard taken in a helper that a
+        refactor split off is attributed to the function the helper was split off from)"""
+        if not hasattr(self, '_known_short'):
+            from .inline import known_functions
+            kn = known_functions()
+            self._known_short = {short(p) for p in kn} if kn is not None else None
+        me = short(fr.body.path)
+        if self._known_short is None or me in self._known_short:
+            return me
+        names = [c.split('@')[0] for c in fr.chain]
+        for n in reversed(names[:-1] if names and names[-1] == me else names):
+            if n in self._known_short:
+                return n
+        return me
+
     def on_leaf_await(self, ip, fr, tok, tags, bi, term, fut):
         depth, held = tok
         if fut.kind == 'lock':
@@ -133,7 +149,7 @@ class LockDomain(Domain):
             dst = term['dst']['l']
             # waiting for a lock is itself a suspension for everything held
             held = frozenset((c, m, d, h, fn_, True) for (c, m, d, h, fn_, g) in held)
-            held = held | {(cls, mode, depth, ('l', dst), short(fr.body.path), False)}
+            held = held | {(cls, mode, depth, ('l', dst), self.known_owner(fr), False)}
             return [((depth, held), None)]
         if fut.kind in ('trait_fn', 'ext'):
             held = frozenset((c, m, d, h, fn_, True) for (c, m, d, h, fn_, g) in held)
